@@ -267,13 +267,15 @@ func Scenarios() []History {
 	// timeout changed while a batch is in flight: answers, expiry, the next batch; timeout above frequency
 	ops = registry(map[string]int64{"p1": 5, "p2": 3})
 	ops = append(ops,
-		Ev{Name: "Call", Signer: "c1", Svc: "s1", Provs: []string{"p1", "p2"}, Cap: 10, Timeout: 5, Rep: true, Freq: 5, Total: 4},
+		Ev{Name: "Call", Signer: "c1", Svc: "s1", Provs: []string{"p1", "p2"}, Cap: 10, Timeout: 5, Rep: true, Freq: 5, Total: 6},
 		eb(1),
 		Ev{Name: "UpdateContext", Signer: "c1", ID: 1, Timeout: 2},
 		Ev{Name: "Obs"},
 		Ev{Name: "Respond", Signer: "p1", Rid: rid(1, 1, 1, 0), Kind: "valid"},
 		eb(1), eb(1), eb(1), eb(1), eb(1),
-		Ev{Name: "UpdateContext", Signer: "c1", ID: 1, Timeout: 6},          // above the frequency: rejected
+		Ev{Name: "UpdateContext", Signer: "c1", ID: 1, Timeout: 4}, // above the frequency (kept): rejected
+		eb(1), eb(1), eb(1), eb(1), eb(1), eb(1),
+		Ev{Name: "UpdateContext", Signer: "c1", ID: 1, Timeout: 6},          // rejected
 		Ev{Name: "UpdateContext", Signer: "c1", ID: 1, Timeout: 6, Freq: 6}, // together: accepted
 		Ev{Name: "Respond", Signer: "p2", Rid: rid(1, 2, 6, 1), Kind: "bad"},
 		eb(1), eb(1), eb(1), eb(1), eb(1), eb(1), eb(1), eb(1),
@@ -371,8 +373,11 @@ func Scenarios() []History {
 	add("same-block-one-budget", smallParams(), map[string]int64{"c1": 7}, ops...)
 
 	// zero-height export with pending requests, earnings, a withdrawal address, a killed and a paused context
-	ops = registry(map[string]int64{"p1": 5, "p2": 3, "p3": 4})
+	ops = registry(map[string]int64{"p1": 5, "p2": 3})
 	ops = append(ops,
+		// p3 is its own owner and pays its earnings out to another account
+		Ev{Name: "Bind", Signer: "p3", Svc: "s1", Prov: "p3", Deposit: 40, DShape: "ok", Pr: pr(4), Qos: 1},
+		Ev{Name: "SetWithdrawAddr", Signer: "p3", Addr: "w1"},
 		Ev{Name: "SetWithdrawAddr", Signer: "o1", Addr: "w1"},
 		Ev{Name: "Call", Signer: "c1", Svc: "s1", Provs: []string{"p1", "p2", "p3"}, Cap: 10, Timeout: 3, Rep: true, Freq: 4, Total: 5},
 		Ev{Name: "Call", Signer: "c2", Svc: "s1", Provs: []string{"p3"}, Cap: 10, Timeout: 2, Rep: true, Freq: 2, Total: -1},
@@ -386,13 +391,50 @@ func Scenarios() []History {
 		Ev{Name: "PrepZeroHeight"},
 		Ev{Name: "Genesis"},
 	)
-	add("genesis-busy", smallParams(), nil, ops...)
+	add("genesis-busy", smallParams(), map[string]int64{"p3": 50}, ops...)
 
 	// zero-height export of an empty module and of a registry without contexts
 	add("genesis-empty", smallParams(), nil, Ev{Name: "PrepZeroHeight"}, Ev{Name: "Genesis"})
 	ops = registry(map[string]int64{"p1": 5})
 	ops = append(ops, Ev{Name: "Disable", Signer: "o1", Svc: "s1", Prov: "p1"}, eb(3), Ev{Name: "PrepZeroHeight"}, Ev{Name: "Genesis"})
 	add("genesis-registry", smallParams(), nil, ops...)
+
+	// ---- known findings (recorded, not repaired): see known_findings.json
+
+	// D8: a provider address that is not 20 bytes long.  o2 binds "p1+" (p1's address extended by one
+	// byte): the earned-fee records of p1 and p1+ share a prefix, the scans by provider mix them
+	ops = []Ev{
+		{Name: "Define", Signer: "o1", Svc: "s1"},
+		{Name: "Bind", Signer: "o1", Svc: "s1", Prov: "p1", Deposit: 40, DShape: "ok", Pr: pr(5), Qos: 1},
+		{Name: "Bind", Signer: "o2", Svc: "s1", Prov: "p1+", Deposit: 40, DShape: "ok", Pr: pr(3), Qos: 1},
+		{Name: "Call", Signer: "c1", Svc: "s1", Provs: []string{"p1", "p1+"}, Cap: 10, Timeout: 2},
+		eb(1),
+		{Name: "Respond", Signer: "p1", Rid: rid(1, 1, 1, 0), Kind: "valid"},
+		{Name: "Respond", Signer: "p1+", Rid: rid(1, 1, 1, 1), Kind: "valid"},
+		{Name: "Obs"},
+		{Name: "Withdraw", Signer: "o1", Prov: "p1"},
+		{Name: "Withdraw", Signer: "o2", Prov: "p1+"},
+		eb(1), eb(1),
+	}
+	hs = append(hs, History{Reset: Ev{Name: "reset", RParams: smallParams(), Tag: "D8-provider-address-not-20-bytes",
+		RBal: map[string]int64{"o1": 500, "o2": 500, "c1": 100, "p1+": 0}}, Ops: ops})
+
+	// D11: a repeated frequency of 2^64-1 wraps the height of the next batch
+	ops = registry(map[string]int64{"p1": 5})
+	ops = append(ops,
+		Ev{Name: "Call", Signer: "c1", Svc: "s1", Provs: []string{"p1"}, Cap: 10, Timeout: 2, Rep: true, FreqHuge: true, Total: -1},
+		eb(1), eb(1), eb(1), eb(1), eb(1),
+	)
+	add("D11-frequency-wraps", smallParams(), nil, ops...)
+
+	// D9: a call of a registered module service (the synchronous call path)
+	ops = []Ev{
+		{Name: "Define", Signer: "o1", Svc: "msvc"},
+		{Name: "Call", Signer: "c1", Svc: "msvc", Provs: []string{"p1"}, Cap: 10, Timeout: 2},
+		eb(1), eb(1), eb(1),
+	}
+	hs = append(hs, History{Reset: Ev{Name: "reset", RParams: smallParams(), Tag: "D9-module-service-call", RModSvc: true,
+		RBal: map[string]int64{"o1": 500, "c1": 100}}, Ops: ops})
 
 	return hs
 }
